@@ -7,3 +7,4 @@ git -C /verif worktree add -q -B p2-$id $ws/verif HEAD
 rsync -a /verif/coq/ $ws/verif/coq/
 git -C /repo worktree add -q --detach $ws/repo HEAD
 echo "$ws ready"
+git -C $ws/verif checkout -- coq/Gen     # generated tables: take the committed ones, not whatever a concurrent mutated run left in /verif
